@@ -519,3 +519,30 @@ def dl_call(fn, a):
         return fn(a["output_name"], run_folder=a["run_folder"], data=a["data"])
     finally:
         X.load_outputs = real
+
+
+# ---- pipefunc/map/_prepare.py::_cannot_be_parallelized (C03) ------------------------------------------------------------
+# prepare_run switches `parallel` off (no executor is created) exactly when nothing could run side by side: no function
+# has a MapSpec and every topological generation holds one function.
+FnMSV = TRec("FnMSV", {"mapspec": TOpt(TObj)})
+GensV = TRec("GensV", {"function_lists": TSeq(TSeq(TObj))})
+PipePV = TRec("PipePV", {"functions": TSeq(FnMSV), "topological_generations": GensV})
+
+cannot_be_parallelized = Contract(
+    "pipefunc/map/_prepare.py::_cannot_be_parallelized", params={"pipeline": PipePV}, returns=TBool,
+    ensures=lambda S, a, r, post: {
+        "exactly when no function has a MapSpec and every generation holds a single function": S.iff(
+            r, S.and_(S.forall(0, S.len(a.pipeline.functions), lambda i: S.is_none(a.pipeline.functions[i].mapspec)),
+                      lambda: S.forall(0, S.len(a.pipeline.topological_generations.function_lists),
+                                       lambda g: S.len(a.pipeline.topological_generations.function_lists[g]) == 1))),
+    },
+)
+PARALLEL = [cannot_be_parallelized]
+
+
+def cbp_gen(rng, tier):
+    from types import SimpleNamespace as NS
+    for _ in range(300 if tier == "quick" else 3000):
+        fns = [NS(mapspec=None if rng.random() < 0.7 else f"x[i] -> y{k}[i]") for k in range(rng.randint(0, 4))]
+        gens = [[f"f{g}_{j}" for j in range(rng.choice((1, 1, 1, 2, 0, 3)))] for g in range(rng.randint(0, 3))]
+        yield {"pipeline": NS(functions=fns, topological_generations=NS(function_lists=gens))}
